@@ -102,3 +102,30 @@ func VH_C12_multi() {
 	pool.Close()
 	vAssert(vQuiesce() == 0, "all-pool-goroutines-terminate-after-close")
 }
+
+// Wait while another goroutine is still submitting: the task submitted BEFORE the call (it is kept
+// busy until the later submission has happened, so the pool is never idle in between) has finished
+// when Wait returns, its effects visible — however quickly the later task completes
+func VH_C12_waitWhileSubmitting() {
+	vUnwind(24)
+	pool := NewWorkerPool(2)
+	effect := make([]int, 1)
+	vRaceChecked(effect)
+	bSubmitted, sDone := false, false
+	pool.Submit(func() {
+		vBlockUntil(func() bool { return bSubmitted })
+		effect[0] = 1
+	})
+	go func() {
+		pool.Submit(func() {})
+		vMon(func() { bSubmitted = true })
+		vMon(func() { sDone = true })
+	}()
+	pool.Wait()
+	vAssert(effect[0] == 1, "wait-returns-only-after-previously-submitted-tasks-finished")
+	vCover("wait-concurrent-with-a-submitter")
+	vBlockUntil(func() bool { return sDone })
+	pool.Wait()
+	pool.Close()
+	vAssert(vQuiesce() == 0, "all-pool-goroutines-terminate-after-close")
+}
